@@ -58,10 +58,15 @@ class PlanApp(object):
         if not any(k.lower() == "content-type" for k, v in headers):
             headers.append(("Content-Type", "text/plain"))
         start(shape.get("status", "200 OK"), headers)
+        retval = None
+        if shape.get("retval") and pieces and not nogaps:
+            retval = pieces.pop()       # the last piece is handed over as the generator's return value (StopIteration.value)
         for p, g in zip(pieces, gaps):
             for _ in range(0 if nogaps else g):
                 yield b""
             yield p
+        if retval is not None:
+            return retval
 
 
 class Duo(object):
